@@ -2,6 +2,7 @@ package main
 
 import (
 	"math/rand"
+	"time"
 
 	"github.com/bluenviron/gomavlib/v3/pkg/frame"
 	"github.com/bluenviron/gomavlib/v3/pkg/streamwriter"
@@ -213,6 +214,24 @@ func cmdC07Reader(o opts) {
 	key := frame.NewV2Key(vecs[0].Key)
 	rec.Put(M{"e": "WINSET", "key": vecs[0].Key, "frames": frames})
 
+	// the rule is about timestamps, not about when the frames arrive: the newest alphabet frame, 10.6 s of silence on the
+	// transport, then frames that are too old (and one that is not) - in the background while the histories run
+	var pacedRes []ResJ
+	var pacedData []byte
+	pacedDone := make(chan struct{})
+	go func() {
+		defer close(pacedDone)
+		newest := alpha[len(alpha)-4] // 2^47: far above the small ones, below the top ones
+		pacedData = append(append(append(append([]byte{}, newest...), alpha[0]...), alpha[3]...), newest...)
+		pacedRes = runStream(pacedData, -1, "eof", nil, false, streamCfg{key: key, pauseAt: len(newest), pause: 10600 * time.Millisecond, bufSize: 512})
+	}()
+	defer func() {
+		<-pacedDone
+		rec.Put(M{"e": "STREAM", "g": 1 << 30, "in": B(pacedData), "errat": -1, "errkind": "eof", "sched": []int{}, "with_data": false,
+			"dl": []int{}, "key": vecs[0].Key, "results": pacedRes, "clean": false, "tag": "win_paced", "complete": true, "buf": 512})
+		rec.Close()
+	}()
+
 	run := func(hist []int) {
 		var data []byte
 		for _, h := range hist {
@@ -267,5 +286,4 @@ func cmdC07Reader(o opts) {
 		}
 		run(h)
 	}
-	rec.Close()
 }
